@@ -423,6 +423,7 @@ fn check_search(mem: &mut Memvid, r: &Req, cursor: Option<String>, situation: &s
         if resp.hits.iter().enumerate().any(|(i, h)| h.rank != i + 1) {
             cx.sum.oracle_violation("ranks-not-1-to-n", &format!("{what_req}: ranks {:?}", resp.hits.iter().map(|h| h.rank).collect::<Vec<_>>()), case.clone()); cx.failed = true; }
         let eng = format!("{:?}", resp.engine);
+        if resp.stale_index_skips > 0 { cx.sum.branch("engine-returned-stale-frame-id"); }
         if !resp.hits.is_empty() { cx.sum.branch(if eng == "Tantivy" { "hits-from-tantivy-path" } else { "hits-from-filters-only-path" }); nontrivial = true; }
         for h in &resp.hits {
             let Some(f) = frames.get(h.frame_id as usize) else {
@@ -658,7 +659,7 @@ fn main() {
         let ops = gen_history(&mut rng);
         let mut cx = Ctx { drv: &mut drv, sum: &mut sum, verbose: false, table: vec![], failed: false };
         run_history(&ops, &mut cx);
-        if sum.oracle_violations.len() + sum.disagreements.len() >= 12 { break; }
+        if sum.oracle_violations.len() + sum.disagreements.len() >= 4 { break; }
     }
     if let Some(d) = drv.as_ref() { sum.model_requests = d.requests; }
     let ld = |c: &std::sync::atomic::AtomicU64| c.load(std::sync::atomic::Ordering::Relaxed);
